@@ -1,8 +1,6 @@
 package wire
 
 import (
-	"bytes"
-	"fmt"
 	"strconv"
 	"testing"
 	"unicode/utf8"
@@ -19,136 +17,12 @@ import (
 	"verifharness/vt"
 )
 
-// protoSpec describes one shipped wire protocol for the round-trip checks.
-type protoSpec struct {
-	name     string
-	fn       func() erpc.ProtoFunc
-	gen      func(t *rapid.T, rec *vt.Rec) vt.Msg // documented supported field set
-	cmp      func(m vt.Msg) vt.CompareOpts
-	perFrame bool // the protocol reads one frame per underlying reader (websocket sub-protocols)
-}
-
-func genStatus(t *rapid.T, m *vt.Msg, maxLen int, text func(t *rapid.T, label string, max int) string) {
-	m.HasStatus = rapid.IntRange(0, 2).Draw(t, "hasStatus") != 0
-	if !m.HasStatus {
-		return
-	}
-	m.Code = vt.StatusCode(t, "code")
-	if rapid.IntRange(0, 5).Draw(t, "codeZero") == 0 {
-		m.Code = 0
-	}
-	m.StatMsg = text(t, "statmsg", maxLen)
-	m.HasCause = rapid.Bool().Draw(t, "hasCause")
-	if m.HasCause {
-		m.Cause = text(t, "cause", maxLen)
-	}
-}
-
-func anyText(t *rapid.T, label string, max int) string { return string(vt.Bytes(t, label, max)) }
-
-func genPipe(t *rapid.T, ids []byte, maxLen int) []byte {
-	switch rapid.IntRange(0, 5).Draw(t, "pipeclass") {
-	case 0, 1:
-		return nil
-	case 2:
-		return []byte{rapid.SampledFrom(ids).Draw(t, "pipe1")}
-	case 3, 4:
-		n := 4
-		if n > maxLen {
-			n = maxLen
-		}
-		return rapid.SliceOfN(rapid.SampledFrom(ids), 0, n).Draw(t, "pipe")
-	default:
-		n := rapid.SampledFrom([]int{5, 17, 64, 254, 255}).Draw(t, "pipelen")
-		if n > maxLen {
-			n = maxLen
-		}
-		return rapid.SliceOfN(rapid.SampledFrom(ids), n, n).Draw(t, "longpipe")
-	}
-}
-
-func genBody(t *rapid.T, longPipe bool) []byte {
-	if longPipe {
-		return vt.Bytes(t, "body", 64)
-	}
-	if rapid.IntRange(0, 40).Draw(t, "bigbody") == 40 {
-		n := rapid.SampledFrom([]int{65535, 65536, 70000, 200000}).Draw(t, "bigbodylen")
-		b := make([]byte, n)
-		seed := rapid.Byte().Draw(t, "bigbodyseed")
-		for i := range b {
-			b[i] = byte(i*7) ^ seed
-		}
-		return b
-	}
-	return vt.Bytes(t, "body", 4097)
-}
-
-// genRawLike generates the field set carried by the raw protocol family
-// (raw, json, pb): every header field, ordered multimap metadata, any codec
-// byte, any body bytes, pipes over the registered filters.
-func genRawLike(methodGen func(t *rapid.T) string, statusText func(t *rapid.T, label string, max int) string, bodyFix func(t *rapid.T, rec *vt.Rec, b []byte) []byte) func(t *rapid.T, rec *vt.Rec) vt.Msg {
-	return func(t *rapid.T, rec *vt.Rec) vt.Msg {
-		var m vt.Msg
-		m.Seq = vt.Seq(t, "seq")
-		if rapid.IntRange(0, 3).Draw(t, "mtypeclass") == 0 {
-			m.Mtype = rapid.Byte().Draw(t, "mtype")
-		} else {
-			m.Mtype = rapid.SampledFrom([]byte{erpc.TypeCall, erpc.TypeReply, erpc.TypePush, erpc.TypeAuthCall, erpc.TypeAuthReply}).Draw(t, "mtype")
-		}
-		m.Method = methodGen(t)
-		genStatus(t, &m, 600, statusText)
-		m.Meta = vt.Meta(t, "meta", 6, 300)
-		if rapid.IntRange(0, 3).Draw(t, "codecclass") == 0 {
-			m.Codec = rapid.Byte().Draw(t, "codec")
-		} else {
-			m.Codec = rapid.SampledFrom([]byte{0, 'j', 'p', 'f', 's', 'x', 't'}).Draw(t, "codec")
-		}
-		m.Pipe = genPipe(t, vt.RegisteredXfer, 255)
-		m.Body = genBody(t, len(m.Pipe) > 4)
-		if bodyFix != nil {
-			m.Body = bodyFix(t, rec, m.Body)
-		}
-		return m
-	}
-}
-
-func methodAnyBytes(t *rapid.T) string {
-	if rapid.IntRange(0, 9).Draw(t, "methodlenclass") == 0 {
-		n := rapid.SampledFrom([]int{254, 255}).Draw(t, "methodblen")
-		return string(rapid.SliceOfN(rapid.Byte(), n, n).Draw(t, "methodb"))
-	}
-	return string(vt.Bytes(t, "method", 255))
-}
-
-func methodUTF8(t *rapid.T) string {
-	if rapid.IntRange(0, 2).Draw(t, "methodclass") == 0 {
-		return rapid.StringMatching(`/[a-z0-9_/]{0,40}`).Draw(t, "method")
-	}
-	return vt.ValidUTF8(t, "method", 255)
-}
-
-// methodPrintable: the JSON protocols document the service method as a %q
-// quoted string; Go quoting and JSON string syntax agree on printable text.
-func methodPrintable(t *rapid.T) string {
-	if rapid.IntRange(0, 2).Draw(t, "methodclass") == 0 {
-		return rapid.StringMatching(`/[a-z0-9_/]{0,40}`).Draw(t, "method")
-	}
-	s := vt.ValidUTF8(t, "method", 200)
-	out := make([]rune, 0, len(s))
-	for _, r := range s {
-		if strconv.IsPrint(r) && r != utf8.RuneError && r < 0x10000 {
-			out = append(out, r)
-		}
-	}
-	return string(out)
-}
-
-func specRaw() protoSpec {
-	return protoSpec{
-		name: "raw",
-		fn:   func() erpc.ProtoFunc { return socket.RawProtoFunc },
-		gen:  genRawLike(methodAnyBytes, anyText, nil),
-		cmp:  func(vt.Msg) vt.CompareOpts { return vt.CompareOpts{} },
+func specRaw() vt.ProtoSpec {
+	return vt.ProtoSpec{
+		Name: "raw",
+		Fn:   func() erpc.ProtoFunc { return socket.RawProtoFunc },
+		Gen:  vt.GenRawLike(vt.MethodAnyBytes, vt.AnyText, nil),
+		Cmp:  func(vt.Msg) vt.CompareOpts { return vt.CompareOpts{} },
 	}
 }
 
@@ -183,32 +57,32 @@ func jsonBodyNeedsEscaping(b []byte) bool {
 	return !utf8.Valid(b)
 }
 
-func specJSON() protoSpec {
-	return protoSpec{
-		name: "json",
-		fn:   jsonproto.NewJSONProtoFunc,
-		gen:  genRawLike(methodPrintable, anyText, jsonBodyFix("C05:jsonproto:body-escaping")),
-		cmp:  func(vt.Msg) vt.CompareOpts { return vt.CompareOpts{} },
+func specJSON() vt.ProtoSpec {
+	return vt.ProtoSpec{
+		Name: "json",
+		Fn:   jsonproto.NewJSONProtoFunc,
+		Gen:  vt.GenRawLike(vt.MethodPrintable, vt.AnyText, jsonBodyFix("C05:jsonproto:body-escaping")),
+		Cmp:  func(vt.Msg) vt.CompareOpts { return vt.CompareOpts{} },
 	}
 }
 
-func specPB() protoSpec {
-	return protoSpec{
-		name: "pb",
-		fn:   pbproto.NewPbProtoFunc,
-		gen:  genRawLike(methodUTF8, anyText, nil),
-		cmp:  func(vt.Msg) vt.CompareOpts { return vt.CompareOpts{} },
+func specPB() vt.ProtoSpec {
+	return vt.ProtoSpec{
+		Name: "pb",
+		Fn:   pbproto.NewPbProtoFunc,
+		Gen:  vt.GenRawLike(vt.MethodUTF8, vt.AnyText, nil),
+		Cmp:  func(vt.Msg) vt.CompareOpts { return vt.CompareOpts{} },
 	}
 }
 
 // The websocket sub-protocol frames have no status field in the shipped
 // format (see C04); the round-trip check covers every other field.
-func specWsJSON() protoSpec {
-	base := genRawLike(methodPrintable, anyText, nil)
-	return protoSpec{
-		name: "ws-json",
-		fn:   jsonSubProto.NewJSONSubProtoFunc,
-		gen: func(t *rapid.T, rec *vt.Rec) vt.Msg {
+func specWsJSON() vt.ProtoSpec {
+	base := vt.GenRawLike(vt.MethodPrintable, vt.AnyText, nil)
+	return vt.ProtoSpec{
+		Name: "ws-json",
+		Fn:   jsonSubProto.NewJSONSubProtoFunc,
+		Gen: func(t *rapid.T, rec *vt.Rec) vt.Msg {
 			m := base(t, rec)
 			if !wsSubStatusSupported("C05:ws-jsonSubProto:no-status-field") {
 				m.HasStatus, m.Code, m.StatMsg, m.Cause, m.HasCause = false, 0, "", "", false
@@ -224,17 +98,19 @@ func specWsJSON() protoSpec {
 			}
 			return m
 		},
-		cmp:      func(vt.Msg) vt.CompareOpts { return vt.CompareOpts{SkipStatus: !wsSubStatusSupported("C05:ws-jsonSubProto:no-status-field")} },
-		perFrame: true,
+		Cmp: func(vt.Msg) vt.CompareOpts {
+			return vt.CompareOpts{SkipStatus: !wsSubStatusSupported("C05:ws-jsonSubProto:no-status-field")}
+		},
+		PerFrame: true,
 	}
 }
 
-func specWsPB() protoSpec {
-	base := genRawLike(methodUTF8, anyText, nil)
-	return protoSpec{
-		name: "ws-pb",
-		fn:   pbSubProto.NewPbSubProtoFunc,
-		gen: func(t *rapid.T, rec *vt.Rec) vt.Msg {
+func specWsPB() vt.ProtoSpec {
+	base := vt.GenRawLike(vt.MethodUTF8, vt.AnyText, nil)
+	return vt.ProtoSpec{
+		Name: "ws-pb",
+		Fn:   pbSubProto.NewPbSubProtoFunc,
+		Gen: func(t *rapid.T, rec *vt.Rec) vt.Msg {
 			m := base(t, rec)
 			if !wsSubStatusSupported("C05:ws-pbSubProto:no-status-field") {
 				if m.HasStatus {
@@ -244,8 +120,10 @@ func specWsPB() protoSpec {
 			}
 			return m
 		},
-		cmp:      func(vt.Msg) vt.CompareOpts { return vt.CompareOpts{SkipStatus: !wsSubStatusSupported("C05:ws-pbSubProto:no-status-field")} },
-		perFrame: true,
+		Cmp: func(vt.Msg) vt.CompareOpts {
+			return vt.CompareOpts{SkipStatus: !wsSubStatusSupported("C05:ws-pbSubProto:no-status-field")}
+		},
+		PerFrame: true,
 	}
 }
 
@@ -263,11 +141,11 @@ var httpReserved = map[string]bool{
 // onto HTTP headers (canonical keys, one value per key); codecs are those in
 // the content-type table; at most one gzip filter; an error reply carries the
 // status as JSON instead of a body.
-func specHTTP() protoSpec {
-	return protoSpec{
-		name: "http",
-		fn:   func() erpc.ProtoFunc { return httproto.NewHTTProtoFunc() },
-		gen: func(t *rapid.T, rec *vt.Rec) vt.Msg {
+func specHTTP() vt.ProtoSpec {
+	return vt.ProtoSpec{
+		Name: "http",
+		Fn:   func() erpc.ProtoFunc { return httproto.NewHTTProtoFunc() },
+		Gen: func(t *rapid.T, rec *vt.Rec) vt.Msg {
 			var m vt.Msg
 			m.Seq = vt.Seq(t, "seq")
 			m.Mtype = rapid.SampledFrom([]byte{erpc.TypeCall, erpc.TypeReply, erpc.TypeAuthCall, erpc.TypeAuthReply}).Draw(t, "mtype")
@@ -306,11 +184,11 @@ func specHTTP() protoSpec {
 				}
 				m.Body = nil
 			} else {
-				m.Body = genBody(t, false)
+				m.Body = vt.GenBody(t, false)
 			}
 			return m
 		},
-		cmp: func(m vt.Msg) vt.CompareOpts {
+		Cmp: func(m vt.Msg) vt.CompareOpts {
 			isReply := m.Mtype == erpc.TypeReply || m.Mtype == erpc.TypeAuthReply
 			// an error reply is carried as application/json, so the codec is
 			// not the message's codec; a request carries no status
@@ -319,216 +197,12 @@ func specHTTP() protoSpec {
 	}
 }
 
-func nontrivialMsg(m vt.Msg) bool {
-	if vt.IsSpecial([]byte(m.Method)) && len(m.Method) > 1 || m.Seq < 0 || m.Seq == 2147483647 || len(m.Pipe) > 0 {
-		return true
-	}
-	if vt.IsBoundaryLen(len(m.Body)) || vt.IsBoundaryLen(len(m.Method)) || vt.IsSpecial(m.Body) {
-		return true
-	}
-	for _, kv := range m.Meta {
-		if vt.IsSpecial([]byte(kv.K)) || vt.IsSpecial([]byte(kv.V)) {
-			return true
-		}
-	}
-	return m.HasStatus && (vt.IsSpecial([]byte(m.StatMsg)) || vt.IsSpecial([]byte(m.Cause)))
-}
-
-func classesOf(m vt.Msg) []string {
-	cls := []string{"mtype=" + strconv.Itoa(int(m.Mtype))}
-	if len(m.Pipe) > 0 {
-		cls = append(cls, "pipe")
-	}
-	if len(m.Pipe) > 4 {
-		cls = append(cls, "longpipe")
-	}
-	if m.HasStatus && m.Code != 0 {
-		cls = append(cls, "status-nonok")
-	}
-	if len(m.Meta) > 1 {
-		cls = append(cls, "meta>=2")
-	}
-	if len(m.Body) > 1024 {
-		cls = append(cls, "body>1KiB")
-	}
-	if len(m.Body) >= 65535 {
-		cls = append(cls, "body>=64KiB")
-	}
-	if vt.IsSpecial(m.Body) {
-		cls = append(cls, "body-special")
-	}
-	if m.Seq < 0 {
-		cls = append(cls, "seq<0")
-	}
-	return cls
-}
-
-// packOne packs m on proto (whose writer is rw) and returns the frame bytes.
-func packOne(proto erpc.Proto, rw *vt.RW, m vt.Msg) (frame []byte, size uint32, err error) {
-	before := len(rw.Writes)
-	msg := m.Build()
-	if err = proto.Pack(msg); err != nil {
-		return nil, 0, err
-	}
-	if n := len(rw.Writes) - before; n != 1 {
-		return nil, 0, fmt.Errorf("one frame must be written with exactly one Write, saw %d", n)
-	}
-	return rw.Writes[len(rw.Writes)-1], msg.Size(), nil
-}
-
-func checkRoundTrip(t *rapid.T, spec protoSpec, rec *vt.Rec) {
-	vt.Init()
-	m := spec.gen(t, rec)
-	rec.Case(m.Canon(), nontrivialMsg(m), classesOf(m)...)
-	if rec.WantSample() && nontrivialMsg(m) {
-		rec.Sample(map[string]interface{}{"proto": spec.name, "msg": m.Sample()})
-	}
-	wrw := &vt.RW{}
-	frame, psize, err := packOne(spec.fn()(wrw), wrw, m)
-	if err != nil {
-		t.Fatalf("%s: Pack of a message inside the documented set failed: %v\nmsg=%v", spec.name, err, m.Sample())
-	}
-	chunks, cycle := vt.Chunks(t, "chunks")
-	rrw := &vt.RW{In: frame, Chunks: chunks, Cycle: cycle}
-	got := vt.NewReceiver()
-	var uerr error
-	func() {
-		defer func() {
-			if p := recover(); p != nil {
-				uerr = fmt.Errorf("panic: %v", p)
-			}
-		}()
-		uerr = spec.fn()(rrw).Unpack(got)
-	}()
-	if uerr != nil {
-		t.Fatalf("%s: Unpack(Pack(m)) failed: %v\nmsg=%v", spec.name, uerr, m.Sample())
-	}
-	if d := m.Compare(got, spec.cmp(m)); d != "" {
-		t.Fatalf("%s: round trip differs: %s\nmsg=%v", spec.name, d, m.Sample())
-	}
-	if rrw.Consumed() != len(frame) {
-		t.Fatalf("%s: Unpack consumed %d of %d frame bytes", spec.name, rrw.Consumed(), len(frame))
-	}
-	_ = psize
-}
-
-func checkStream(t *rapid.T, spec protoSpec, rec *vt.Rec) {
-	vt.Init()
-	k := rapid.IntRange(1, 6).Draw(t, "frames")
-	msgs := make([]vt.Msg, k)
-	for i := range msgs {
-		msgs[i] = spec.gen(t, rec)
-	}
-	chunks, cycle := vt.Chunks(t, "chunks")
-	small := len(chunks) > 0 && cycle
-	canon := ""
-	for _, m := range msgs {
-		canon += m.Canon() + "#"
-	}
-	rec.Case(canon+fmt.Sprint(chunks, cycle), k >= 2 && small, fmt.Sprintf("frames=%d", k), fmt.Sprintf("smallchunks=%v", small))
-	if rec.WantSample() && k >= 2 && small {
-		ss := []interface{}{}
-		for _, m := range msgs {
-			ss = append(ss, m.Sample())
-		}
-		rec.Sample(map[string]interface{}{"proto": spec.name, "stream": ss, "chunks": chunks, "cycle": cycle})
-	}
-
-	// pack all frames through ONE protocol instance (shared writer)
-	wrw := &vt.RW{}
-	wp := spec.fn()(wrw)
-	frames := make([][]byte, k)
-	psizes := make([]uint32, k)
-	for i, m := range msgs {
-		f, sz, err := packOne(wp, wrw, m)
-		if err != nil {
-			t.Fatalf("%s: Pack #%d failed: %v", spec.name, i, err)
-		}
-		frames[i], psizes[i] = f, sz
-		// size independence on the packing side: a fresh instance reports the same size
-		frw := &vt.RW{}
-		_, fsz, err := packOne(spec.fn()(frw), frw, m)
-		if err != nil {
-			t.Fatalf("%s: Pack #%d on a fresh instance failed: %v", spec.name, i, err)
-		}
-		if fsz != sz {
-			t.Fatalf("%s: size of packed message #%d depends on preceding traffic: %d after %d frames, %d on a fresh protocol instance", spec.name, i, sz, i, fsz)
-		}
-	}
-	stream := bytes.Join(frames, nil)
-	if spec.perFrame {
-		return
-	}
-	rrw := &vt.RW{In: stream, Chunks: chunks, Cycle: cycle}
-	rp := spec.fn()(rrw)
-	consumed := 0
-	for i, m := range msgs {
-		got := vt.NewReceiver()
-		var uerr error
-		func() {
-			defer func() {
-				if p := recover(); p != nil {
-					uerr = fmt.Errorf("panic: %v", p)
-				}
-			}()
-			uerr = rp.Unpack(got)
-		}()
-		if uerr != nil {
-			t.Fatalf("%s: frame #%d of %d in a chunked stream failed to decode: %v", spec.name, i, k, uerr)
-		}
-		if d := m.Compare(got, spec.cmp(m)); d != "" {
-			t.Fatalf("%s: frame #%d of %d in a chunked stream differs: %s", spec.name, i, k, d)
-		}
-		consumed += len(frames[i])
-		if rrw.Consumed() != consumed {
-			t.Fatalf("%s: after frame #%d the reader consumed %d bytes, frames so far are %d bytes (lost frame sync)", spec.name, i, rrw.Consumed(), consumed)
-		}
-		// size independence on the reading side
-		arw := &vt.RW{In: frames[i]}
-		alone := vt.NewReceiver()
-		if err := spec.fn()(arw).Unpack(alone); err != nil {
-			t.Fatalf("%s: frame #%d alone failed to decode: %v", spec.name, i, err)
-		}
-		if alone.Size() != got.Size() {
-			t.Fatalf("%s: reported size of frame #%d depends on preceding traffic: %d in the stream, %d decoded alone", spec.name, i, got.Size(), alone.Size())
-		}
-	}
-	// the stream is exhausted: the next Unpack must report an error, not a message
-	extra := vt.NewReceiver()
-	var uerr error
-	func() {
-		defer func() {
-			if p := recover(); p != nil {
-				uerr = fmt.Errorf("panic: %v", p)
-			}
-		}()
-		uerr = rp.Unpack(extra)
-	}()
-	if uerr == nil {
-		t.Fatalf("%s: Unpack on an exhausted stream returned a message", spec.name)
-	}
-}
-
-const ruleMsg = "one message per case drawn from the protocol's documented field set (see DESIGN.md C05 table); non-trivial = a text field with a byte outside [A-Za-z0-9], a boundary length, a negative/extreme seq or a non-empty filter pipe; distinct by canonical encoding of all fields"
-const ruleStream = "1-6 back-to-back frames packed through one protocol instance, decoded from the concatenated stream under a generated read-chunk schedule; non-trivial = >=2 frames and a cycling small-chunk schedule"
-
-func runSpec(t *testing.T, spec protoSpec) {
-	t.Run("msg", func(t *testing.T) {
-		rec := vt.NewRec(t, "C05", spec.name+"/msg", ruleMsg)
-		rapid.Check(t, func(rt *rapid.T) { checkRoundTrip(rt, spec, rec) })
-	})
-	t.Run("stream", func(t *testing.T) {
-		rec := vt.NewRec(t, "C05", spec.name+"/stream", ruleStream)
-		rapid.Check(t, func(rt *rapid.T) { checkStream(rt, spec, rec) })
-	})
-}
-
-func TestC05Raw(t *testing.T)    { runSpec(t, specRaw()) }
-func TestC05JSON(t *testing.T)   { runSpec(t, specJSON()) }
-func TestC05PB(t *testing.T)     { runSpec(t, specPB()) }
-func TestC05HTTP(t *testing.T)   { runSpec(t, specHTTP()) }
-func TestC05WsJSON(t *testing.T) { runSpec(t, specWsJSON()) }
-func TestC05WsPB(t *testing.T)   { runSpec(t, specWsPB()) }
+func TestC05Raw(t *testing.T)    { vt.RunSpec(t, specRaw()) }
+func TestC05JSON(t *testing.T)   { vt.RunSpec(t, specJSON()) }
+func TestC05PB(t *testing.T)     { vt.RunSpec(t, specPB()) }
+func TestC05HTTP(t *testing.T)   { vt.RunSpec(t, specHTTP()) }
+func TestC05WsJSON(t *testing.T) { vt.RunSpec(t, specWsJSON()) }
+func TestC05WsPB(t *testing.T)   { vt.RunSpec(t, specWsPB()) }
 
 // TestC05KnownProbes re-checks every listed known finding of C05 with a
 // deterministic reproduction and reports the ones that still reproduce.
@@ -538,7 +212,7 @@ func TestC05KnownProbes(t *testing.T) {
 	if key := "C05:ws-pbSubProto:no-status-field"; vt.IsKnown(key) {
 		m := vt.Msg{Seq: 7, Mtype: erpc.TypeReply, HasStatus: true, Code: 404, StatMsg: "Not Found"}
 		wrw := &vt.RW{}
-		frame, _, err := packOne(pbSubProto.NewPbSubProtoFunc()(wrw), wrw, m)
+		frame, _, err := vt.PackOne(specWsPB(), pbSubProto.NewPbSubProtoFunc()(wrw), wrw, m)
 		if err != nil {
 			t.Fatalf("probe: %v", err)
 		}
